@@ -97,44 +97,58 @@ def merge_contributions(ctx, facts, mb, vecp, cfg):
     flat_map + collect, helpers that view an operand as a slice — the vector merge returns is read as
     `for each operand x of the operand list: <what x contributes>`, once per assumed kind of x."""
     from . import x_streams as XS
-    R, terms = XS.read_vector(facts, mb, vecp, None)
-    # ---- the pass and what it runs over (no kind assumed)
-    unknown_src, wrong_src, passes = [], [], []
-    for t in terms:
-        tops = t[1] if t[0] == "seq" else [t]
-        fors = [x for x in tops if x[0] in ("for", "operands", "exit", "adapted", "members", "other")]
-        passes.append(len(fors) if not XS.find(t, "unknown") or fors else None)
-        for x in fors:
-            S = x if x[0] in ("operands", "adapted", "members", "other") else (x[1][1] if x[0] == "exit" else x[1])
-            if S == ("operands",):
-                continue
-            if XS.find(S, "unknown") or S[0] == "unknown":
-                unknown_src.append(S)
-            else:
-                wrong_src.append(S)
-    if any(n is None for n in passes) or not terms:
-        ctx.unread("K1.one-pass", "merge makes one pass over its operands (%s)" % cfg, "the vector merge returns is not read as passes over streams: %s" % "; ".join(R.show(t) for t in terms)[:300], where=mb.where(), fn=mb.key)
+    # read once per assumed kind of the operands (helpers are then read under that kind, too)
+    readings = {v: XS.read_vector(facts, mb, vecp, v) for v in facts.variants(VALUE)}
+    # ---- the pass and what it runs over
+    unknown_src, wrong_src, reordered, passes, shown = [], [], [], [], []
+    for v, (R, terms) in readings.items():
+        for t0 in terms:
+            for t in (t0[1] if t0[0] == "alt" else [t0]):
+                tops = t[1] if t[0] == "seq" else [t]
+                fors = [x for x in tops if x[0] in ("for", "operands", "exit", "adapted", "members", "other")]
+                passes.append(len(fors) if not XS.find(t, "unknown") or fors else None)
+                if R.show(t) not in shown:
+                    shown.append(R.show(t))
+                for x in fors:
+                    while x[0] in ("adapted", "exit"):
+                        reordered.append("%s: %s" % (x[1] if x[0] == "adapted" else "early exit", R.show(x)))
+                        x = x[2] if x[0] == "adapted" else x[1]
+                    S = x[1] if x[0] == "for" else x
+                    if S == ("operands",):
+                        continue
+                    if XS.find(S, "unknown") or S[0] == "unknown":
+                        unknown_src.append(R.show(S))
+                    else:
+                        wrong_src.append(R.show(S))
+    shown = "; ".join(shown)[:300]
+    if any(n is None for n in passes) or not passes:
+        ctx.unread("K1.one-pass", "merge makes one pass over its operands (%s)" % cfg, "the vector merge returns is not read as passes over streams: %s" % shown, where=mb.where(), fn=mb.key)
     else:
-        ctx.check(all(n == 1 for n in passes), "K1.one-pass", "merge makes one pass over its operands (%s)" % cfg, "the vector merge returns is built as: %s" % "; ".join(R.show(t) for t in terms)[:300], where=mb.where(), fn=mb.key, nontrivial=True)
+        ctx.check(all(n <= 1 for n in passes), "K1.one-pass", "merge makes one pass over its operands (%s)" % cfg, "the vector merge returns is built as: %s" % shown, where=mb.where(), fn=mb.key, nontrivial=True)
+    for r_ in sorted(set(reordered)):
+        ctx.fail("K1.append-only", "merge|%s" % r_.split(":")[0], "the elements merge returns go through %s (order / multiplicity would change)" % r_[:200], where=mb.where(), fn=mb.key)
     if wrong_src:
         ctx.fail("K1.over-operands", "the pass iterates the operand list itself (%s)" % cfg,
-                 "merge iterates %s instead of its operand list: some operand shapes are rewritten before flattening (more than one level can be spliced)" % "; ".join(R.show(S) for S in wrong_src)[:200], where=mb.where(), fn=mb.key)
+                 "merge iterates %s instead of its operand list: some operand shapes are rewritten before flattening (more than one level can be spliced)" % "; ".join(sorted(set(wrong_src)))[:200], where=mb.where(), fn=mb.key)
     elif unknown_src:
-        ctx.unread("K1.over-operands", "the pass iterates the operand list itself (%s)" % cfg, "what merge iterates is not read: %s" % "; ".join(R.show(S) for S in unknown_src)[:200], where=mb.where(), fn=mb.key)
-    elif terms:
+        ctx.unread("K1.over-operands", "the pass iterates the operand list itself (%s)" % cfg, "what merge iterates is not read: %s" % "; ".join(sorted(set(unknown_src)))[:200], where=mb.where(), fn=mb.key)
+    elif passes:
         ctx.ok("K1.over-operands", "the pass iterates the operand list itself (%s)" % cfg, nontrivial=True)
     # ---- per kind of operand
     for v in facts.variants(VALUE):
-        Rv, tv = XS.read_vector(facts, mb, vecp, v)
+        Rv, tv = readings[v]
+        tv = [t for t0 in tv for t in (t0[1] if t0[0] == "alt" else [t0])]
         key = "merge: a %s operand contributes %s (%s)" % (v, "its elements" if v == "Array" else "itself", cfg)
         per = []        # what one operand contributes, per alternative
         for t in tv:
             tops = t[1] if t[0] == "seq" else [t]
             for x in tops:
+                while x[0] in ("adapted", "exit"):       # reported by K1.append-only
+                    x = x[2] if x[0] == "adapted" else x[1]
                 if x == ("operands",):
                     per.append(("one", "x"))
                 elif x[0] == "for" and x[1] == ("operands",):
-                    for a in x[3]:
+                    for a in [b_ for a0 in x[3] for b_ in (a0[1] if a0[0] == "alt" else [a0])]:
                         per.append(("members", "x") if a == ("members", x[2]) else (("one", "x") if a == ("one", x[2]) else a))
                 elif x[0] == "empty":
                     continue
